@@ -283,7 +283,7 @@ func (a *actx) eval(p *apath, e ast.Expr) *aval {
 			return &aval{kind: "nil"}
 		case "ref":
 			if t.Sel.Name == "Position" {
-				return &aval{kind: "val", text: "position of a value"}
+				return &aval{kind: "posval", text: "position of a value"}
 			}
 		}
 		return &aval{kind: "opaque", text: "selector " + nodeText(t)}
@@ -369,6 +369,9 @@ func (a *actx) evalLit(p *apath, cl *ast.CompositeLit) *aval {
 		}
 		if a.fieldIdx(o.typ, key) < 0 {
 			p.opaque = append(p.opaque, "unknown field "+o.typ+"."+key)
+		}
+		if v.kind == "posval" || v.kind == "pos" {
+			p.opaque = append(p.opaque, "a position flows into the field "+o.typ+"."+key)
 		}
 		o.fields[key] = v
 		o.order = append(o.order, key)
